@@ -943,4 +943,61 @@ Section HeapProofs.
   Lemma empty_heap_inv : heap_inv (@empty_heap K).
   Proof. split; cbn; auto. Qed.
 
+  (** ** insertion of a key that is not smaller than its parent: plain append (used for pickling) *)
+  Lemma insert_prep_frame : forall h, heap_inv h ->
+    forall es len size pos, insert_prep h = Some (es, len, size, pos) ->
+      pos = (if hlen h =? 0 then 1 else hlen h) /\
+      forall i, 1 <= i < pos -> cget es i = cget (entries h) i.
+  Proof.
+    intros [es0 len0 size0] (Hl & Hinv) es len size pos. cbn [entries hlen hsize] in *.
+    unfold insert_prep. cbn [entries hlen hsize].
+    destruct Hinv as [(H0 & H1)|(H1 & H2 & H3 & H4 & H5)].
+    - subst len0 size0. change (0 <? 1 + 1) with true. change (0 =? 0) with true. cbv iota.
+      destruct (cset _ 0 sentinel); cbn [obind]; [|discriminate].
+      intros E; inversion E; subst. split; [reflexivity|]. intros i Hi; lia.
+    - destruct (Nat.eqb_spec len0 0) as [E0|E0]; [lia|].
+      destruct (size0 <? S len0 + 1) eqn:Eg.
+      + destruct (Nat.eqb_spec size0 0) as [E1|E1]; [lia|].
+        intros E; inversion E; subst. split; [reflexivity|].
+        intros i Hi. apply cget_app_l. lia.
+      + intros E; inversion E; subst. split; [reflexivity|]. auto.
+  Qed.
+
+  Lemma bubble_up_stop : forall f es pos k pe, cget es (pos / 2) = Some pe -> ltb k (ekey pe) = false ->
+    bubble_up (S f) es pos k = Some (es, pos).
+  Proof. intros f es pos k pe H1 H2. cbn [Heap.bubble_up]. rewrite H1. cbn [obind]. rewrite H2. reflexivity. Qed.
+
+  Lemma insert_append : forall h k hd c, heap_inv h -> good k ->
+    (forall pe, 2 <= hlen h -> cget (entries h) (hlen h / 2) = Some pe -> le (ekey pe) k) ->
+    let pos := if hlen h =? 0 then 1 else hlen h in
+    exists h', insert h k hd c = Some h' /\ heap_inv h' /\ hlen h' = S pos /\
+      (forall i, 1 <= i < pos -> cget (entries h') i = cget (entries h) i) /\
+      cget (entries h') pos = Some (mkE k (Some hd) c).
+  Proof.
+    intros h k hd c Hinv Hk Hpar pos.
+    destruct (insert_spec h k hd c Hinv Hk) as (h' & Hins & Hinv' & _).
+    exists h'. split; [exact Hins|]. split; [exact Hinv'|].
+    destruct (insert_prep_spec h Hinv) as (es & p & size & Hprep & P1 & P2 & P3 & P4 & P5 & P6 & P7 & P8).
+    destruct (insert_prep_frame h Hinv _ _ _ _ Hprep) as (Hp & Hfr). fold pos in Hp. subst p.
+    rewrite insert_unfold, Hprep in Hins. cbn [obind] in Hins.
+    assert (Hpe : exists pe, cget es (pos / 2) = Some pe /\ ltb k (ekey pe) = false).
+    { destruct (Nat.eq_dec (pos / 2) 0) as [E|E].
+      - rewrite E. exists sentinel. split; [exact P5|]. apply bot_least.
+      - assert (Hlt : pos / 2 < pos) by (apply div2_lt; lia).
+        destruct (P6 (pos / 2) ltac:(lia)) as (pe & Hpe & _).
+        exists pe. split; [exact Hpe|].
+        assert (Hh : pos = hlen h /\ 2 <= hlen h).
+        { unfold pos in *. destruct (hlen h =? 0); [cbn in E; congruence|]. split; [reflexivity|].
+          destruct (hlen h) as [|[|n]]; cbn in E; try congruence; lia. }
+        destruct Hh as (Hh1 & Hh2). apply (Hpar pe Hh2). rewrite <- Hh1. rewrite <- Hfr by lia. exact Hpe. }
+    destruct Hpe as (pe & Hpe & Hstop).
+    rewrite (bubble_up_stop pos es pos k pe Hpe Hstop) in Hins. cbn [obind] in Hins.
+    destruct (cset es pos (mkE k (Some hd) c)) as [es3|] eqn:Hset; cbn [obind] in Hins; [|discriminate].
+    inversion Hins; subst h'. cbn [hlen entries].
+    destruct (cset_inv _ _ _ _ Hset) as (_ & _ & G).
+    split; [reflexivity|]. split.
+    - intros i Hi. rewrite G. destruct (Nat.eqb_spec i pos); [lia|]. apply Hfr; auto.
+    - rewrite G, Nat.eqb_refl. reflexivity.
+  Qed.
+
 End HeapProofs.
